@@ -27,11 +27,10 @@ crate::verif_harness! {
     /// transparent index and the layer is not a background layer, else the palette alpha.
     #[kani::unwind(12)]
     fn k_indexed_as_rgba(s) {
-        let mut entries = nohash::IntMap::default();
+        let mut pal = ColorPalette { entries: Default::default() }; // whatever map type `entries` is
         let eid = s.u32();
         let rgba: [u8; 4] = s.bytes();
-        entries.insert(eid, crate::verif_spec::mk_entry(eid, rgba));
-        let pal = ColorPalette { entries };
+        pal.entries.insert(eid, crate::verif_spec::mk_entry(eid, rgba));
         let px = s.u8();
         let ti = s.u8();
         let bg = s.bool();
